@@ -44,7 +44,7 @@ def main():
         sh(["git", "-C", "/repo", "worktree", "remove", "--force", wt])
         shutil.rmtree(wt, ignore_errors=True)
         r = sh(["git", "-C", "/repo", "worktree", "add", "-q", "--detach", wt, "HEAD"])
-        meta = {"property": prop, "k": kk, "round": 1 + (offset > 0), "source": "independent sub-agent given only the property text and a scratch worktree"}
+        meta = {"property": prop, "k": kk, "round": 1 + (kk - 1) // 3, "source": "independent sub-agent given only the property text and a scratch worktree"}
         try:
             env = dict(os.environ, PYTHONPATH=wt)
             clean_demo = sh([PY, demo], cwd=wt, env=env, timeout=600)
